@@ -349,6 +349,10 @@ class PathEval:
         elif kind in ('ref',):
             kk = self.key(rv['pl'])
             val = st.env.get(kk, ('ref', kk))
+            pj = rv['pl']['p']
+            if kk not in st.env and len(pj) == 1 and pj[0]['k'] == 'deref' and (rv['pl']['l'],) in st.env:
+                # &*r: references evaluate to what they point to
+                val = st.env[(rv['pl']['l'],)]
         elif kind == 'discr':
             base = st.env.get(self.key(rv['pl']))
             val = ('discr', base)
@@ -386,6 +390,13 @@ class PathEval:
                 val = st.fresh_atom('min', min(l0, l1), min(h0, h1))
             else:
                 val = st.fresh_atom('max', max(l0, l1), max(h0, h1))
+        if val is None and last == 'new' and 'RangeInclusive' in name and len(args) == 2:
+            val = ('agg', 'RangeInclusive', args, 'RangeInclusive')
+        if val is None and last == 'contains' and len(args) == 2 and isinstance(args[0], tuple) and args[0][0] == 'agg' and len(args[0][2]) == 2 \
+                and all(isinstance(x, Lin) for x in args[0][2]) and isinstance(args[1], Lin) and ('ops::Range' in name or 'range::Range' in name):
+            lo, hi = args[0][2]
+            incl = 'RangeInclusive' in name
+            val = ('and', ('cmp', 'Le', lo, args[1]), ('cmp', 'Le' if incl else 'Lt', args[1], hi))
         if val is None:
             r = int_range(dty)
             if r and self.prog is not None:
@@ -485,22 +496,41 @@ class PathEval:
             v = self.read(st, t['d'])
             be = fn.bool_edges(b)
             for s in fn.succs()[b]:
-                st2 = st.copy()
-                try:
-                    if be is not None and not (isinstance(v, tuple) and v[0] == 'discr'):
-                        if s == be[0] and s != be[1]:
-                            self.assume(st2, v, False)
-                        elif s == be[1] and s != be[0]:
-                            self.assume(st2, v, True)
-                    else:
-                        vals = fn.edge_values(b).get(s, set())
-                        st2.discr.append((v, frozenset(vals)))
-                except Infeasible:
-                    continue
-                self._walk(s, st2, path + [s], on_return)
+                alts = [[]]
+                if be is not None and not (isinstance(v, tuple) and v[0] == 'discr'):
+                    if s == be[0] and s != be[1]:
+                        alts = _split(v, False)
+                    elif s == be[1] and s != be[0]:
+                        alts = _split(v, True)
+                for conj in alts:
+                    st2 = st.copy()
+                    try:
+                        if be is not None and not (isinstance(v, tuple) and v[0] == 'discr'):
+                            for vi, ti in conj:
+                                self.assume(st2, vi, ti)
+                        else:
+                            vals = fn.edge_values(b).get(s, set())
+                            st2.discr.append((v, frozenset(vals)))
+                    except Infeasible:
+                        continue
+                    self._walk(s, st2, path + [s], on_return)
             return
         # unreachable / resume: no result
         return
+
+
+def _split(v, truth):
+    """Disjunctive normal form of `v == truth` over and/or/not: a list of conjunctions [(value, truth)], the
+    alternatives mutually exclusive so that each concrete input follows exactly one."""
+    if isinstance(v, tuple) and v[0] == 'not':
+        return _split(v[1], not truth)
+    if isinstance(v, tuple) and ((v[0] == 'and' and not truth) or (v[0] == 'or' and truth)):
+        first = _split(v[1], truth)
+        rest = [a + b for a in _split(v[1], not truth) for b in _split(v[2], truth)]
+        return first + rest
+    if isinstance(v, tuple) and ((v[0] == 'and' and truth) or (v[0] == 'or' and not truth)):
+        return [a + b for a in _split(v[1], truth) for b in _split(v[2], truth)]
+    return [[(v, truth)]]
 
 
 _SUMMARY = {}
